@@ -41,6 +41,7 @@ package dns
 //@   assert at "r1, e1 = os.Open(includePath)" gateos: zp.includeAllowed && zp.includeDepth < 7 [C07]
 //@   assert at "zp.sub = NewZoneParser(r1, neworigin, includePath)" depth: zp.includeDepth < 7 [C07]
 //@   exit sticky: old(zp.parseErr) != nil ==> ret0 == nil && !ret1 [C07]
+//@   stored at "zp.parseErr = " errfile: value != nil && value.file == zp.file [C07]
 
 // $GENERATE: the range is checked before the generator is built, the generator stops at the end of the
 // range or when its counter would overflow, and a nested $GENERATE is refused
@@ -165,6 +166,8 @@ package dns
 //@ func svcbParseParam [C07]
 //@ iface SVCBKeyValue.parse [C07]
 //@ func (*ZoneParser).setParseError [C07]
+//@   requires zp != nil
+//@   ensures set: zp.parseErr != nil && zp.parseErr.file == zp.file && zp.parseErr.err == err && ret0 == nil && !ret1
 //@ func (*ZoneParser).Err [C07]
 //@ func (*zlexer).Comment [C07]
 //@ func (*zlexer).Err [C07]
